@@ -108,7 +108,7 @@ func init() {
 
 	harness.Register(&harness.Property{
 		ID: "C16", Level: "exploration",
-		Rule:        "cases = every sender-side scenario of the library (15 priced functions x argument sizes x same/cross shard x attached call) x the 22 single-field perturbations of a schedule of pairwise distinct primes, applied through the real factory.GasScheduleChange; oracle: consumption delta = multiplier x delta for the function's own field and its documented per-byte fields, 0 for every other field, and the absolute formula under the base schedule; + schedules with a zero / missing entry / missing section (must be rejected as a whole: consumption unchanged) + random sequences of <= 8 accepted/rejected changes. Non-trivial = a measured successful execution; distinct = (scenario, field)",
+		Rule:        "cases = every sender-side scenario of the library (15 priced functions x argument sizes x same/cross shard x attached call) x the 22 single-field perturbations of a schedule of pairwise distinct primes, applied through the real factory.GasScheduleChange; oracle: consumption delta = multiplier x delta for the function's own field and its documented per-byte fields, 0 for every other field, and the absolute formula under the base schedule; + schedules with a zero / missing entry / missing section (must be rejected as a whole: consumption unchanged) + random sequences of <= 8 accepted/rejected changes. Non-trivial = a measured successful execution; distinct = (scenario, field) + schedule changes (valid / invalid / both orders) delivered to the factory before it creates the container.",
 		Assumptions: append([]string{"documented per-byte components as listed in DESIGN.md §5 C16; data-copy gas of same-shard NFT transfers is only required to be a non-negative multiple"}, commonAssumptions...),
 		Batches:     tierN(8, 16),
 		Floors:      map[string]int64{"C16/sensitivity-measurements": 800, "C16/rejected-schedule-checks": 100, "C16/sequence-checks": 50, "C16/absolute-formula": 30},
@@ -349,6 +349,28 @@ func runC16(c *harness.Ctx) {
 					sL.M.viol("C16", "schedule-change-while-inactive:"+scSig(sc), fmt.Sprintf("scenario %s: a schedule accepted before the activation epoch was confirmed gives consumption %d after activation, that schedule alone gives %d", sc.Name, got, want), lL)
 				}
 				R.Cover("C16/late-activation-checks")
+			}
+			// a schedule change the factory accepts (or rejects) BEFORE it creates the container
+			// prices the functions it creates afterwards
+			bad := world.CloneGasMap(S1)
+			delete(bad[vmcommon.BaseOperationCostString], "StorePerByte")
+			for v, pre := range [][]map[string]map[string]uint64{{S1}, {bad}, {bad, S1}, {S1, bad}} {
+				wantP, okP := want, ok1
+				if v == 1 {
+					wantP, okP = cons0, true
+				}
+				sP := NewScn(c.Rand("scn").Fork(harness.Hash64(sc.Name)), c.R, ScnOpts{Shards: sc.Shards, GasMap: world.GasMapFrom(baseSched), Enabled: []string{"C16"}, PreCreate: pre})
+				lP := sc.Exec(sP, gen.BigGas)
+				if lP == nil {
+					continue
+				}
+				got, ok2 := node.Consumed(lP)
+				ok2 = ok2 && lP.OK
+				if okP != ok2 || (okP && got != wantP) {
+					sP.M.viol("C16", "schedule-change-before-container:"+scSig(sc), fmt.Sprintf("scenario %s: schedule changes delivered to the factory before it created the container (variant %d) give consumption %d, the last accepted schedule alone gives %d", sc.Name, v, got, wantP), lP)
+				}
+				R.Cover("C16/pre-container-schedule-checks")
+				R.Eval(1)
 			}
 		}
 	}
